@@ -855,6 +855,12 @@ def _run(ctx):
                    dict(kind="tree", tree=wtree, queries=[(0, "x", wgot)], note="witness late_subclass_tree")))
     ctx.case(tcases[-1][1])
     ctx.count("from_alias:witness-late-subclass:%s" % wgot)
+    if wgot != 3:
+        # "the class registered last wins" read literally: D was registered last, C is returned
+        ctx.fail("two classes share an alias and the one registered last does not win (cross-branch case)",
+                 dict(hierarchy="R; B(R); C(R) aliases={'x'}; D(B) aliases={'x'}", query="R.from_alias('x')",
+                      returned={0: "R", 1: "B", 2: "C", 3: "D"}.get(wgot, str(wgot)), registered_last="D"),
+                 kind="impl", key="last-registered-cross-branch")
     del wR, wB, wC, wD, wid
     gc.collect()
     if ok_corr:
